@@ -6,8 +6,12 @@ functions ``f(a)`` and ``g(v)``.  A function body is a sequence of at most N
 statements from a menu (locals, the global, an attribute of a fresh object, a
 list and a dict subscript, ``if/else``, ``if`` without else, a call of ``g``
 from ``f``) optionally followed by ``return x|y|z``; only bodies that never
-read an unbound name are generated.  Every program is loaded through pynguin's
-real import hook with CHECKED+LINE instrumentation and the test case
+read an unbound name are generated.  Three families are enumerated completely
+(``BOUNDS``): A = every ``f`` with N <= 3 (quick) / 4 (thorough) and a fixed
+``g``; B = every ``g`` with the same N and the identity ``f``; C = every pair
+with (N_f, N_g) = (2, 1) (quick) / (3, 1) and (2, 2) (thorough).  Every program
+is loaded through pynguin's real import hook with CHECKED+LINE instrumentation
+and the test case
 
     int_0 = <a>;  var_0 = m.f(int_0);  var_1 = m.g(var_0)        a in {0, 1, 2}
 
@@ -344,7 +348,9 @@ class Runner:
                              f"var_1 = {self.alias}.g(var_0)")
 
     def executor(self, observer):
-        ex = self.sut.executor()
+        # generous time limits: a loaded machine must not turn into "timeout" verdicts
+        ex = self.sut.executor(maximum_test_execution_timeout=120,
+                               test_execution_time_per_statement=40)
         ex.set_instrument(True)
         ex.add_remote_observer(observer)
         return ex
@@ -452,18 +458,15 @@ class Runner:
             if root is not None:
                 all_demanded |= set(demanded(root))
         # the reported result (after the implementation's own post-processing) must keep them
-        lost = all_demanded - checked
-        if lost:
-            kinds = set()
-            for pos in sorted(crit):
-                if pos >= 1:
-                    for line, ks in demanded(model[pos - 1][2]).items():
-                        if line in lost:
-                            kinds |= ks
-            for k in sorted(kinds):
-                self.violation("statement", k, "dependence-line-missing-in-checked-lines",
-                               f"a={a}: lines {sorted(lost)} are demanded by the bound values but are "
-                               f"not in trace.checked_lines {sorted(checked)}", a)
+        from mc.depinterp import missing_frontier
+        for pos in sorted(crit):
+            if pos == 0:
+                continue
+            for kind, line, _user in missing_frontier(model[pos - 1][2], checked):
+                self.violation("statement", kind, "dependence-line-missing-in-checked-lines",
+                               f"a={a}: var_{pos - 1} depends on line {line} "
+                               f"({self.src_lines[line - 1].strip()!r}, {kind} dependence), which is not "
+                               f"in trace.checked_lines {sorted(checked)}", a)
         col.sample({"source": self.source, "a": a, "outcome": repr(got),
                     "checked_lines": sorted(checked), "demanded": sorted(all_demanded),
                     "executed": sorted(executed)}, every=97)
